@@ -111,6 +111,10 @@ def generate(rng, tier, n):
         yield case
 
 
+def translators(repo):
+    return c04.translators(repo)        # Proofs/C04_GenCheck.v (among the C04 files C05 depends on) needs Gen/C04_Gen.v
+
+
 def run_impl(case):
     return c04.run_impl(case)
 
